@@ -206,3 +206,13 @@ Fixpoint chain_ok (ls : list layer) : bool :=
 
 Definition count_gates (f : gate -> bool) (l : layer) : Z := Z.of_nat (length (filter f (l_gates l))).
 Definition is_crot (g : gate) : bool := match g with GCRot _ _ => true | _ => false end.
+
+(* the outcomes of sample(candidates, 2): all ordered pairs of different positions of the candidate list
+   (the candidates are pairwise different qubits) *)
+Fixpoint ordered_pairs (l : list nat) : list (nat * nat) :=
+  match l with
+  | [] => []
+  | x :: t => flat_map (fun y => [(x, y); (y, x)]) t ++ ordered_pairs t
+  end.
+Definition accepted_pairs (prev : option layer) (crq : list nat) : list (nat * nat) :=
+  filter (fun p => accepts prev (fst p) (snd p)) (ordered_pairs crq).
